@@ -79,22 +79,28 @@ opcodes = {
 }
 
 
-def PackInteger(v):
-    if v == 0:
-        return bytes([0])
-    blockCount = math.ceil(v.bit_length() / 7)
+def PackInteger(v, signed=False):
+    # LEB128; negative values always use the signed encoding, non-negative
+    # ones only if requested (required for i32.const immediates)
+    signed = signed or v < 0
     output = []
-    for i in range(blockCount):
+    while True:
         b = v & 0x7F
         v >>= 7
-        if (i + 1) < blockCount:
+        if signed:
+            done = (v == 0 and not b & 0x40) or (v == -1 and b & 0x40)
+        else:
+            done = v == 0
+        if not done:
             b |= 0b1000_0000
         output.append(b)
+        if done:
+            break
     return bytes(output)
 
 
-def WriteInteger(output: BinaryIO, i: int):
-    output.write(PackInteger(i))
+def WriteInteger(output: BinaryIO, i: int, signed=False):
+    output.write(PackInteger(i, signed))
 
 
 def PackFloat(v):
@@ -369,8 +375,9 @@ class Instruction:
         WriteByte(output, self.__opcode)
         # TODO Handle non-integer arguments
         if self.__args:
+            signed = self.__opcode == opcodes["i32.const"]
             for arg in self.__args:
-                WriteInteger(output, arg)
+                WriteInteger(output, arg, signed)
 
 
 class Code:
